@@ -73,9 +73,15 @@ impl Params {
         let mem = mem / 1024;
         let mem = u32::try_from(mem).map_err(|_| PasetoError::InvalidKey)?;
 
+        // argon2 computes `p_cost * 8` before range-checking p_cost
+        let para = self.para.get();
+        if para > argon2::Params::MAX_P_COST {
+            return Err(PasetoError::InvalidKey);
+        }
+
         let params = argon2::ParamsBuilder::new()
             .m_cost(mem)
-            .p_cost(self.para.get())
+            .p_cost(para)
             .t_cost(self.time.get())
             .build()
             .map_err(|_| PasetoError::InvalidKey)?;
